@@ -18,7 +18,8 @@ describe(
     "consolidated file and only then deletes, in one hold, the delete being unreachable if the append raised; an append to "
     "a deleted node file re-creates the header; the rows returned to the submitter round are exactly the rows moved, from "
     "every node file, unfiltered; locks nest only consolidated -> node; and every completion path collects before it reads "
-    "the final results.",
+    "the final results."
+    " Every row written by a compute-node job object goes to that batch's node file (never straight to the consolidated file); the collections returned by the submitter's collection loop are bound once, outside the loop.",
     [
         "Allow-list: ResultsAggregator.clear_results_for_resubmission / clear_unsuccessful_results rewrite the consolidated file without the "
         "lock - they run only from resubmit-jobs, which holds the submitter role on a complete submission (C13.1): no runner or collector exists then",
@@ -29,6 +30,28 @@ describe(
 )
 
 RA = "ResultsAggregator"
+
+
+def node_rows_go_to_node_file(ctx, r, rid):
+    """Every row written from a compute-node job object goes to that batch's node file (never directly to the
+    consolidated file: the collector reports only rows it moved, so a row written elsewhere is never reported as newly
+    completed and its job stays 'submitted' for ever)."""
+    ap = ctx.fn(f"{RA}.append", rid)
+    n = 0
+    for f in ctx.ix.functions.values():
+        for s in ctx.cg.sites_in(f):
+            if not s.calls_short(ctx.ix, f"{RA}.append"):
+                continue
+            n += 1
+            out = ctx.arg_for(s, ap, "output_dir")
+            b = ctx.arg_for(s, ap, "batch_id")
+            ok = out is not None and ctx.src(out) == "self._output" and b is not None and ctx.src(b) == "self._batch_id"
+            r.check(ok, f"{f.short}: the row goes to this batch's node file of this output directory", key_of(f, "append target"), s.loc,
+                    f"`{ctx.src(s.node)}` writes the row to {'the consolidated file (no batch_id)' if b is None or ctx.src(b) == 'None' else 'batch ' + ctx.src(b)} of {ctx.src(out) if out is not None else None}: "
+                    "the collector reports only rows it moved out of results_batch_<id>.csv, so this result is never reported as newly completed (the job stays submitted, its dependents are never released or canceled)",
+                    "reported as newly completed to exactly one submitter round")
+    if n < 2:
+        raise AnalysisError(rid, f"only {n} ResultsAggregator.append call sites found (expected the completion and the cancel site)")
 
 
 @rule(P, "C08.1", "T7", "every write / delete of a results file happens inside a results-lock hold", min_obligations=5)
@@ -212,6 +235,10 @@ def c08_5(ctx, r):
     pub = ctx.fn(f"{RA}.process_results", "C08.5")
     ws = [s for s in ctx.cg.sites_in(pub) if s.via_wrapper and pr.qual in s.wrapped]
     r.check(bool(ws), "process_results holds the consolidated lock around the whole collection", key_of(pub, "wrapper"), pub.loc(), "process_results does not run _process_results under the consolidated lock")
+    node_rows_go_to_node_file(ctx, r, "C08.5")
+    from .c09 import returned_accumulators_persist
+
+    returned_accumulators_persist(ctx, r, "C08.5")
 
 
 @rule(P, "C08.6", "T7", "locks nest only consolidated -> node", min_obligations=2)
